@@ -116,8 +116,9 @@ fn plan_par(o: &Opts, prop: &str, quick: usize, thorough: usize, all_forms: bool
       let mut members =
          vec![MemberSpec { prog: prog.clone(), opts: PrintOpts::plain(Kind::Ascent), meta: meta(&base, "ser", Kind::Ascent, true) }];
       members.push(MemberSpec { prog: prog.clone(), opts: PrintOpts::plain(Kind::AscentPar), meta: meta(&base, "par", Kind::AscentPar, false) });
-      // C20: every second program also with rule-level parallelism (other generated code around the per-iteration state)
-      if all_forms || (prop == "C20" && i % 2 == 0) {
+      // C20: every second program, C05: every third program also with rule-level parallelism (other generated code around
+      // the per-iteration state; several rules inserting into one relation at the same time)
+      if all_forms || (prop == "C20" && i % 2 == 0) || (prop == "C05" && i % 3 == 0) {
          let mut opts = PrintOpts::plain(Kind::AscentPar);
          opts.attrs = vec!["inter_rule_parallelism".into()];
          let mut m = meta(&base, "par_inter_rule", Kind::AscentPar, false);
@@ -208,7 +209,15 @@ fn plan_c14(o: &Opts) -> Vec<GroupSpec> {
    while out.len() < n {
       let mut r = rng_for("C14", o.seed, i);
       i += 1;
-      let prog = gen::gen_any(&mut r, &GenCfg::core());
+      // every sixth program is built around a BYODS relation (the provider's state must be resumable as well)
+      let with_byods = i % 6 == 5;
+      let prog = if with_byods {
+         let ds = [vcore::ast::Ds::EqRel, vcore::ast::Ds::TrRel, vcore::ast::Ds::TrRelUf][vcore::rng::Src::below(&mut r, 3)];
+         let ternary = vcore::rng::Src::chance(&mut r, 40);
+         vcore::gen_ds::gen_byods(&mut r, &GenCfg::core(), ds, ternary)
+      } else {
+         gen::gen_any(&mut r, &GenCfg::core())
+      };
       let base = format!("C14-s{}-{}", o.seed, i - 1);
       let mk = |kind: Kind, variant: &str, is_ref: bool| {
          let mut opts = PrintOpts::plain(kind);
@@ -218,7 +227,7 @@ fn plan_c14(o: &Opts) -> Vec<GroupSpec> {
          MemberSpec { prog: prog.clone(), opts, meta: m }
       };
       let mut members = vec![mk(Kind::Ascent, "ser", true)];
-      if gen::par_rejects(&prog).is_none() && i % 2 == 0 {
+      if gen::par_rejects(&prog).is_none() && i % 2 == 0 && !with_byods {
          members.push(mk(Kind::AscentPar, "par", false));
       }
       out.push(GroupSpec { members });
@@ -553,7 +562,7 @@ fn plan_c09(o: &Opts) -> Vec<GroupSpec> {
          }
       }
       // a seeded choice of 5-6 packagings per base
-      let mut kinds: Vec<usize> = (0..14).collect();
+      let mut kinds: Vec<usize> = (0..16).collect();
       r.shuffle(&mut kinds);
       for &k in kinds.iter().take(8) {
          match k {
@@ -633,6 +642,22 @@ fn plan_c09(o: &Opts) -> Vec<GroupSpec> {
                let mut op = PrintOpts::plain(Kind::AscentPar);
                op.attrs = vec!["measure_rule_times".into(), "inter_rule_parallelism".into()];
                add("measure_rule_times_par", op);
+            },
+            14 => {
+               // a struct signature with a type parameter and a where clause
+               let mut op = PrintOpts::plain(Kind::Ascent);
+               op.generic = true;
+               if r.chance(30) {
+                  let a = r.below(n_items + 1);
+                  let b = a + r.below(n_items - a + 1);
+                  op.include_cut = Some((a, b));
+               }
+               add("generic_signature", op);
+            },
+            15 if par_ok => {
+               let mut op = PrintOpts::plain(Kind::AscentPar);
+               op.generic = true;
+               add("generic_signature_par", op);
             },
             _ => {},
          }
